@@ -97,7 +97,12 @@ func ServerTable() []ServerEntry {
 		{"modepb.ModelServer", viaRegister(func() registerer { return modepb.NewModelServer(modepb.NewModel()) })},
 		{"occupancysensorpb.ModelServer", viaRegister(func() registerer { return occupancysensorpb.NewModelServer(occupancysensorpb.NewModel()) })},
 		{"onoffpb.ModelServer", viaRegister(func() registerer { return onoffpb.NewModelServer(onoffpb.NewModel()) })},
-		{"openclosepb.ModelServer", viaRegister(func() registerer { return openclosepb.NewModelServer(openclosepb.NewModel()) })},
+		{"openclosepb.ModelServer", viaRegister(func() registerer {
+			// two presets, so that the states can match one and reads carry the preset descriptor
+			return openclosepb.NewModelServer(openclosepb.NewModel(
+				openclosepb.WithPreset(&traits.OpenClosePositions_Preset{Name: "closed", Title: "Closed"}, &traits.OpenClosePosition{OpenPercent: 0}),
+				openclosepb.WithPreset(&traits.OpenClosePositions_Preset{Name: "ajar", Title: "Ajar"}, &traits.OpenClosePosition{OpenPercent: 30}, &traits.OpenClosePosition{OpenPercent: 10, Direction: traits.OpenClosePosition_UP})))
+		})},
 		{"parentpb.ModelServer", func() []Svc {
 			return []Svc{{&traits.ParentApi_ServiceDesc, parentpb.NewModelServer(parentpb.NewModel())}}
 		}},
